@@ -628,7 +628,20 @@ func TestVerifC20(t *testing.T) {
 				wave()
 				quiesce()
 			}
-			// a region discovered later reuses the healthy connection
+			// a region discovered later reuses the healthy connection - also when its probe is first answered "try again later"
+			// (the region is still opening, the server is busy): that says nothing against the connection
+			if p.nreg > 1 {
+				var once atomic.Bool
+				class := []string{verifsim.ExcRegionOpening, verifsim.ExcTooBusy, verifsim.ExcQueueTooBig}[(p.m+p.resets)%3]
+				cl.Lock()
+				cl.Rules = append(cl.Rules, func(c *verifsim.Cluster, rs *verifsim.RS, sc *verifsim.ServerConn, req *verifsim.Request, name []byte) *verifsim.Directive {
+					if rs.Addr == "rs1" && verifsim.IsProbe(req) && once.CompareAndSwap(false, true) {
+						return &verifsim.Directive{Exc: class}
+					}
+					return nil
+				})
+				cl.Unlock()
+			}
 			last := regs[p.nreg-1]
 			g, _ := hrpc.NewGet(context.Background(), []byte("t"), append(append([]byte{}, last.Start...), 'z'))
 			c.Get(g)
